@@ -493,12 +493,12 @@ def str_method(ex, s, name, args, kwargs, line):
         if isinstance(a, tuple):
             return wrap(z3.Or(*[z3.SuffixOf(lift(x), t) for x in a]))
         return wrap(z3.SuffixOf(lift(a), t))
-    if name == "lower":
+    if name in ("lower", "upper"):
+        mapped = _map_literal_leaves(t, (lambda x: x.lower()) if name == "lower" else (lambda x: x.upper()))
+        if mapped is not None:
+            return wrap(mapped)
         ex.hints.extend(ex.ctx.case_axioms(t))
-        return wrap(py_lower(t))
-    if name == "upper":
-        ex.hints.extend(ex.ctx.case_axioms(t))
-        return wrap(py_upper(t))
+        return wrap(py_lower(t) if name == "lower" else py_upper(t))
     if name == "replace":
         if len(args) == 2:
             return wrap(z3.StringVal("") if False else _replace_all(lift(s), lift(args[0]), lift(args[1])))
@@ -515,6 +515,21 @@ def str_method(ex, s, name, args, kwargs, line):
     if name in ("strip", "lstrip", "rstrip", "split", "format", "zfill", "rjust", "ljust"):
         raise Unsupported(f"str.{name} on symbolic string")
     raise Unsupported(f"str.{name}")
+
+
+def _map_literal_leaves(t, fn):
+    """fn applied to an if-then-else tree whose leaves are string literals (e.g. str(bool).upper())"""
+    if z3.is_string_value(t):
+        try:
+            return z3.StringVal(fn(t.as_string()))
+        except Exception:
+            return None
+    if z3.is_app(t) and t.decl().kind() == z3.Z3_OP_ITE:
+        a, b = _map_literal_leaves(t.arg(1), fn), _map_literal_leaves(t.arg(2), fn)
+        if a is None or b is None:
+            return None
+        return z3.If(t.arg(0), a, b)
+    return None
 
 
 def _replace_all(s, a, b):
